@@ -4,6 +4,7 @@ package main
 // release in package join, no Close on parameters.
 
 import (
+	"go/token"
 	"fmt"
 	"go/types"
 	"strings"
@@ -125,14 +126,33 @@ func checkJoinRelease(c *Ctx) {
 					if e2.Kind == "invoke" && e2.Method == "Close" && sameTerm(held(e2.Recv), val) {
 						released = "closed"
 					}
-					if e2.Kind == "go" && e2.Recv != nil && e2.Recv.K == "closure" && e2.Fn != nil {
-						// tie: closure waits for Done() of the returned value, then closes this one
+					if e2.Kind == "go" && e2.Fn != nil && e2.Fn.Blocks != nil {
+						// tie: the goroutine waits for Done() of the returned value, then closes this one
 						cl := e2.Fn
-						bind := map[string]*Term{} // freevar name -> value bound
-						for i, fv := range cl.FreeVars {
-							if i < len(e2.Recv.A) {
-								bind[fv.Name()] = held(e2.Recv.A[i])
+						bind := map[string]*Term{} // name of the body's free variable or parameter -> value bound
+						if e2.Recv != nil && e2.Recv.K == "closure" {
+							for i, fv := range cl.FreeVars {
+								if i < len(e2.Recv.A) {
+									bind[fv.Name()] = held(e2.Recv.A[i])
+								}
 							}
+						} else {
+							for i, pr := range cl.Params {
+								if i < len(e2.Args) {
+									bind[pr.Name()] = held(e2.Args[i])
+								}
+							}
+						}
+						bound := func(x *Term) *Term {
+							switch {
+							case x == nil:
+								return nil
+							case x.K == "load" && len(x.A) == 1 && x.A[0].K == "freevar":
+								return bind[x.A[0].S]
+							case x.K == "freevar" || x.K == "param":
+								return bind[x.S]
+							}
+							return nil
 						}
 						cps := (&Walker{P: c.P}).FuncRegion(cl)
 						c.paths += len(cps)
@@ -140,23 +160,17 @@ func checkJoinRelease(c *Ctx) {
 							waited := false
 							for _, ce := range cps[0].Effects {
 								if ce.Kind == "recv" && ce.Addr.K == "invoke" && ce.Addr.S == "Done" {
-									x := ce.Addr.A[0]
-									if x.K == "load" && x.A[0].K == "freevar" {
-										if b := bind[x.A[0].S]; b != nil {
-											for _, r := range returned {
-												if sameTerm(r, b) {
-													waited = true
-												}
+									if b := bound(ce.Addr.A[0]); b != nil {
+										for _, r := range returned {
+											if sameTerm(r, b) {
+												waited = true
 											}
 										}
 									}
 								}
 								if ce.Kind == "invoke" && ce.Method == "Close" && waited {
-									x := ce.Recv
-									if x.K == "load" && x.A[0].K == "freevar" {
-										if b := bind[x.A[0].S]; b != nil && sameTerm(b, val) {
-											released = "tied to the result's Done()"
-										}
+									if b := bound(ce.Recv); b != nil && sameTerm(b, val) {
+										released = "tied to the result's Done()"
 									}
 								}
 							}
@@ -211,11 +225,56 @@ func checkJoinNoCloseOfParams(c *Ctx) {
 				n++
 				c.sites++
 				p := valPath(recvValue(cc))
+				if params[p] && root.Object() != nil && !root.Object().Exported() {
+					// a private helper (or a goroutine it starts) closing the helper's parameter closes
+					// whatever the helper's callers pass: judge the arguments
+					var par *ssa.Parameter
+					for _, rp := range root.Params {
+						if rp.Name() == p {
+							par = rp
+						}
+					}
+					if par != nil {
+						handed := false
+						sites := c.P.callersOf(root)
+						for _, site := range sites {
+							ci, okc := site.In.(ssa.CallInstruction)
+							idx := -1
+							for i, fp := range root.Params {
+								if fp == par {
+									idx = i
+								}
+							}
+							if !okc || site.Kind == "value" || idx < 0 || idx >= len(ci.Common().Args) {
+								handed = true
+								continue
+							}
+							arg := ci.Common().Args[idx]
+							if ld, okl := arg.(*ssa.UnOp); okl && ld.Op == token.MUL {
+								arg = storedValue(ld.X)
+							}
+							croot := site.Fn
+							for croot.Parent() != nil {
+								croot = croot.Parent()
+							}
+							for _, cp := range croot.Params {
+								if cp.Name() == valPath(arg) {
+									handed = true
+								}
+							}
+							if _, isParam := arg.(*ssa.Parameter); isParam {
+								handed = true
+							}
+						}
+						c.check(!handed && len(sites) > 0, rule, fnName(f)+"/Close-on-"+p, c.P.instrPos(in), "closes an object the join created (judged at the helper's call sites)", fnName(f)+" closes its parameter "+p+", and a call site passes a controller handed in by the caller: closing or failing to build a join must leave the source and destination controllers running")
+						continue
+					}
+				}
 				c.check(!params[p], rule, fnName(f)+"/Close-on-"+p, c.P.instrPos(in), "closes an object the join created", fnName(f)+" closes "+p+", a controller handed in by the caller: closing or failing to build a join must leave the source and destination controllers running")
 			}
 		}
 	}
-	c.check(n >= 17, rule, "join/Close-sites", "-", fmt.Sprintf("%d Close call sites", n), fmt.Sprintf("found %d Close call sites in package join, hand-confirmed 18", n))
+	c.check(n >= 2, rule, "join/Close-sites", "-", fmt.Sprintf("%d Close call sites", n), fmt.Sprintf("found %d Close call sites in package join (18 on the pinned tree; a shared helper may reduce them, none at all means the rule lost its anchor)", n))
 }
 
 // checkGeneratedJoinShape: construction shape of every <X><Y>sWith function.
